@@ -115,6 +115,8 @@ TREE: dict[str, str] = {
     "src/pkg/sub/deep.py": "u = 1\n",
     "src/data.txt": "not python\n",
     "src/readonly.py": "r = 1\n",
+    # deep enough that refurb's visitor exceeds the recursion limit (suppressed, issue #302) while mypy's build succeeds
+    "src/deepexpr.py": "x = " + " + ".join(["1"] * 600) + "\n",
 }
 EMPTY_DIRS = ["src/emptypkg"]
 
@@ -132,6 +134,7 @@ SCENARIOS: dict[str, tuple[list[str], list[str], str | None]] = {
     "directory-argument": (["src/pkg"], ["src/pkg/__init__.py", "src/pkg/mod.py", "src/pkg/sub/__init__.py", "src/pkg/sub/deep.py"], None),
     "debug": (["src/clean.py", "--debug"], ["src/clean.py"], None),
     "readonly-file": (["src/readonly.py"], ["src/readonly.py"], None),
+    "visitor-recursion-limit": (["src/clean.py", "src/deepexpr.py"], ["src/clean.py", "src/deepexpr.py"], None),
     "plugin-check-crashes": (["src/clean.py", "src/diag.py", "--load", "plug_crash"], [], "check-crash"),
     "plugin-bad-signature": (["src/clean.py", "--load", "plug_bad"], [], "load-TypeError"),
 }
@@ -568,9 +571,12 @@ def lifecycle_run(spec: dict[str, Any]) -> dict[str, Any]:
         p = subprocess.run([core.PY, "-c", WORKER], input=json.dumps(spec), cwd=work, env=env, capture_output=True, text=True, timeout=300)
         last = p.stdout.strip().splitlines()[-1] if p.stdout.strip() else ""
         try:
-            return json.loads(last)
+            o = json.loads(last)
         except ValueError:
             return {"events": None, "error": (p.stderr or p.stdout)[-800:]}
+        sp = work / spec["stats"] if spec.get("stats") else None
+        o["stats_text"] = sp.read_text(errors="replace") if sp is not None and sp.is_file() else None
+        return o
 
 
 # --------------------------------------------------------------------------------------------
@@ -691,6 +697,22 @@ def run(ctx) -> None:
                  "required": "TMPDIR is empty after the run",
                  "how": "write cwd_files into an empty directory (plus mkdir emptydir), TMPDIR=<empty dir> python -m refurb <argv>"},
             )
+        # oracle on the statistics file of the instrumented run: when every file was visited (a RecursionError inside a
+        # visit is suppressed by run_refurb and counts as visited) and the file was written, it has the documented shape
+        # and an integer entry for every checked module
+        files = [a for a in s["argv"] if a.endswith(".py") and a in LC_FILES and a != "broken.py"]
+        nvis = sum(1 for e in o["events"] if e.startswith("visit ") and e.endswith(" ok"))
+        if s["timing"] and o.get("stats_text") is not None and "outputTimingStats ok" in o["events"] and files and nvis == len(files) and "broken.py" not in s["argv"]:
+            res.bump("lifecycle_stats_files_checked")
+            for pr in check_stats_text(o["stats_text"], [Path(f).stem for f in files]):
+                res.violate(
+                    f"--timing-stats file after `refurb {' '.join(s['argv'])}` ({s['name']}): {pr}",
+                    {"kind": "stats-file-defect", "scenario": s["name"], "defect": pr.split(" (")[0][:60]},
+                    {"cwd_files": LC_FILES, "argv": s["argv"], "fault": s["fault"], "events": o["events"], "written": o["stats_text"][:600],
+                     "required": "one JSON object, three documented sections, an integer entry per checked module",
+                     "how": "write cwd_files into an empty directory, python -m refurb <argv>; fault {'recursion': i} = the i-th visited file makes "
+                            "refurb's visitor raise RecursionError (natural trigger: `x = 1 + 1 + ... + 1` with ~600 terms)"},
+                )
     if specs:
         res.sample({"lifecycle": specs[2]["name"], "argv": specs[2]["argv"], "impl_events": observed[2].get("events")})
 
